@@ -40,10 +40,35 @@ def register(gt):
             real = hashlib.sha256
             seen = []
 
+            # tags may also be used through PRECOMPUTED prefixes sha256(tag) || sha256(tag): candidates are the printable
+            # constants found in the module's namespace (nested containers included) and the BIP's own three tags; a
+            # sha256 input that starts with the doubled hash of a candidate is a use of that tag
+            cands = {b"BIP0340/aux", b"BIP0340/nonce", b"BIP0340/challenge"}
+
+            def collect(v, depth=0):
+                if isinstance(v, str):
+                    v = v.encode("utf-8", "replace")
+                if isinstance(v, (bytes, bytearray)):
+                    if 0 < len(v) <= 40 and all(32 <= ch < 127 for ch in v):
+                        cands.add(bytes(v))
+                elif depth < 3 and isinstance(v, (tuple, list, set, frozenset)):
+                    for x in v:
+                        collect(x, depth + 1)
+                elif depth < 3 and isinstance(v, dict):
+                    for k_, x in v.items():
+                        collect(k_, depth + 1)
+                        collect(x, depth + 1)
+            for k_, v_ in list(vars(m).items()):
+                if not k_.startswith("__"):
+                    collect(v_)
+            prefix = {real(t).digest() * 2: t for t in cands}
+
             def spy(data=b"", *a, **k):
                 d = bytes(data)
                 if 0 < len(d) <= 40 and all(32 <= ch < 127 for ch in d) and d not in seen:
                     seen.append(d)
+                elif len(d) >= 64 and d[:64] in prefix and prefix[d[:64]] not in seen:
+                    seen.append(prefix[d[:64]])
                 return real(data, *a, **k)
             patched = [(hashlib, "sha256")] + [(m, k) for k, v in vars(m).items() if v is real]
             try:
@@ -65,7 +90,7 @@ def register(gt):
                 import bits.ecmath as ec
                 pk = m.pubkey(ec.point_scalar_mul(3, (m.SECP256K1_Gx, m.SECP256K1_Gy)))
             vt = tags_probed(lambda: m.verify(pk, msg, sig_[0]))
-            mode = "behavioural probe (sha256 inputs observed during one sign / one verify)"
+            mode = "behavioural probe (sha256 inputs observed during one sign / one verify: tag strings, or the doubled tag hash of a candidate tag)"
         assert st and vt, "no tag assignments found"
         out += "(* translator_mode: tags %s *)\n" % mode
         out += "Definition sign_tags : list bytes := %s.\n" % gt.coq_list(gt.coq_bytes(t) for t in st)
